@@ -74,3 +74,28 @@ def split(prop, violations):
 
 # ---------------------------------------------------------------------------------------------
 # classifiers (added together with the corresponding entry in known_findings.json)
+
+
+def _feat(v):
+    return set(v["detail"].get("features") or [])
+
+
+@predicate("F10")
+def _f10(v):
+    d = v["detail"]
+    return (v["kind"] == "fake_raised:ValueError" and "float_grid_empty" in _feat(v)
+            and "empty range" in d["exc"]["msg"] and (d["exc"]["where"] or "").endswith("random_int"))
+
+
+@predicate("F12")
+def _f12(v):
+    d = v["detail"]
+    return (v["kind"] == "fake_raised:IndexError" and "empty_alphabet" in _feat(v)
+            and "empty sequence" in d["exc"]["msg"] and "generation/_random.py" in (d["exc"]["where"] or ""))
+
+
+@predicate("F17")
+def _f17(v):
+    d = v["detail"]
+    return bool(d.get("unsat_member")) and (v["kind"].startswith("generated_value_rejected:")
+                                            or v["kind"].startswith("fake_raised:"))
